@@ -29,10 +29,10 @@ logging.getLogger().setLevel(logging.ERROR)  # the all-permutations version logs
 RULE = ("dense: every shape with <= 36 cells and order <= 4 (thorough; a seeded sample in quick) plus orders 5-6 "
         "with extents >= 2 and some singleton-padded shapes, every choice of one group or of two disjoint groups "
         "of equal length among modes of equal extent (proper subsets, non-adjacent modes, unsorted groups, "
-        "1-d / None argument conventions), data = small integers of both signs with zeros (random), "
+        "1-d / None argument conventions), plus 2^6 with three groups of two and with two groups of three modes, data = small integers of both signs with zeros (random), "
         "class-constant (symmetric) and symmetric with one entry changed (nearly symmetric); both versions, "
         "details on/off; Kruskal: cubic integer factor matrices of order 2..4, rank 1..3; malformed groups "
-        "(unequal extents, overlapping, out of range, empty) in a separate stream; non-trivial = accepted and "
+        "(unequal extents, overlapping, out of range, empty, a mode listed twice) in a separate stream; non-trivial = accepted and "
         "more than one cell in a group of at least two modes; distinct = distinct case hash")
 ASSUMPTIONS = [
     "np.transpose / np.sort / fancy indexing / numpy_groupies.aggregate / itertools.permutations have the "
